@@ -1124,6 +1124,8 @@ class Interp:
         if isinstance(v, z3.ExprRef) and z3.is_bool(v):
             return z3.If(v, 1, 0)
         if isinstance(v, float):
+            if v in (float("inf"), float("-inf")):
+                return v          # infinities stay Python floats: logic.lt/le/eq/Min/Max know how to compare them with terms
             return Fraction(repr(v))
         return v
 
